@@ -14,6 +14,7 @@ pub mod c14;
 pub mod c15;
 pub mod c16;
 pub mod c17;
+pub mod c18;
 pub mod c20;
 pub mod smoke;
 
@@ -36,6 +37,7 @@ pub fn lookup(id: &str) -> Option<(&'static str, Runner)> {
         "C15" => ("C15", c15::run as Runner),
         "C16" => ("C16", c16::run as Runner),
         "C17" => ("C17", c17::run as Runner),
+        "C18" => ("C18", c18::run as Runner),
         "C20" => ("C20", c20::run as Runner),
         _ => return None,
     })
